@@ -813,15 +813,16 @@ _META = {"user": "vérif", "k1": 3, "comment": "a b", "flag": True, "x": 1.5}
 
 
 def strat_point_model():
+    # the model (inside exact_spec) and the other categoricals are drawn first: hypothesis skews categorical draws that
+    # come after long variable-size draws towards their first option
     return st.builds(
-        lambda build, pts, branch, tunit, ptsg, mkeys, spec, u, at, mat: {
+        lambda spec, build, pts, branch, tunit, mkeys, ptsg, u, at, mat: {
             "build": build, "points": pts, "branch": branch, "points_grid": ptsg, "meta_keys": mkeys, "spec": spec,
             "units": dict(u, temperature_unit=tunit), "adsorbate": at["adsorbate"], "material": mat},
-        st.sampled_from(["fit", "fit", "params"]), st.sampled_from(["default", "list", "isotherm", "loading"]),
-        st.sampled_from(["ads", "ads", "des"]), st.sampled_from(["K", "K", "°C"]),
-        _grid(),
-        st.lists(st.sampled_from(sorted(_META)), max_size=3, unique=True), exact_spec(natural_only=True), S.units(), S.ads_T(),
-        S.material())
+        exact_spec(natural_only=True), st.sampled_from(["fit", "fit", "params"]),
+        st.sampled_from(["default", "list", "isotherm", "loading"]), st.sampled_from(["ads", "ads", "des"]),
+        st.sampled_from(["K", "K", "°C"]), st.lists(st.sampled_from(sorted(_META)), max_size=3, unique=True), _grid(),
+        S.units(), S.ads_T(), S.material())
 
 
 def _same_value(a, b):
